@@ -143,7 +143,8 @@ func H_C03_history() {
 				return
 			}
 			var ies []*ie.IE
-			switch vChoose("change", 5) {
+			expectReject := false
+			switch vChoose("change", 6) {
 			case 0: // update FAR: new tunnel
 				u := fars[k][1]
 				u.peer, u.teid = vGNBs[vChoose("new_gnb", len(vGNBs))], 0x7000+uint32(k)
@@ -164,6 +165,13 @@ func H_C03_history() {
 				u.gate = 0x5
 				qers[k][0] = u
 				ies = append(ies, u.update())
+			case 5: // update a PDR's match (new TEID), then a FAR update that cannot be parsed: rejected as a whole
+				up := pdrs[k][0]
+				up.teid = 0x8000 + uint32(k)
+				bad := fars[k][1]
+				bad.action = 0
+				ies = append(ies, up.update(), bad.update())
+				expectReject = true
 			case 4: // remove one PDR (first or last of the session's list) and its FAR
 				id := 1 + vChoose("remove_which", 2)
 				ies = append(ies, ie.NewRemovePDR(ie.NewPDRID(uint16(id))), ie.NewRemoveFAR(ie.NewFARID(uint32(id))))
@@ -174,8 +182,14 @@ func H_C03_history() {
 			vAssert("modification-answered", ok)
 			if vCauseOf(m.Cause) != ie.CauseRequestAccepted {
 				vCover("modification-rejected")
-				return
+				// a rejected request leaves the tables - and the session record they are the image of - as they were
+				check("after-rejected-modification")
+				if !expectReject {
+					return
+				}
+				continue
 			}
+			vAssert("unparsable-update-rejected", !expectReject)
 			vCover("modified")
 			check("after-modification")
 		case 2:
@@ -311,16 +325,59 @@ func H_C03_wide() {
 	st := vNewBessStack()
 	e, srv := st.e, st.env.srv
 	p, f, q := vSessionRules(0)
-	p[1].sdf = "permit out ip from 10.1.0.0/16 1000-2000 to assigned"
+	// a range wider than the Exact strategy allows arrives over PFCP; a pair with
+	// true ranges on both sides cannot (parseSDFFilter's documented workaround
+	// keeps one port range per filter), so that one is handed to the plug-in directly
+	bad := "permit out ip from 10.1.0.0/16 1000-2000 to assigned"
+	when := vChoose("when", 4) // 0 establishment, 1 modification creating a PDR, 2 modification updating a PDR, 3 plug-in call with both sides ranges
+	if when == 0 {
+		p[1].sdf = bad
+	}
 	e.vSend(vEstablishment(2, 0xc0, "cp.test", p, f, q))
 	r, ok := e.vLastReply().(*message.SessionEstablishmentResponse)
 	vAssert("answered", ok)
-	if vCauseOf(r.Cause) != ie.CauseRequestAccepted {
+	if when == 0 {
+		vAssert("establishment-with-unrepresentable-range-refused", vCauseOf(r.Cause) != ie.CauseRequestAccepted)
 		vCover("refused")
 		vAssert("refused-session-leaves-nothing", srv.total() == 0)
 		return
 	}
-	vCover("accepted")
-	vTag("unrepresentable-port-range-accepted")
-	vCheckBessImage(e.pc.store.GetAllSessions(), srv, "wide")
+	vAssume(vCauseOf(r.Cause) == ie.CauseRequestAccepted)
+	fs, _ := r.UPFSEID.FSEID()
+	if when == 3 {
+		sess, found := e.pc.store.GetSession(fs.SEID)
+		vAssert("session-stored", found)
+		all := sess.PacketForwardingRules
+		np := all.pdrs[1]
+		np.pdrID = 3
+		np.appFilter.srcPortRange, np.appFilter.dstPortRange = portRange{10, 20}, portRange{80, 85}
+		all.pdrs = append(all.pdrs, np)
+		method := upfMsgTypeAdd
+		if vBool("as_modification") {
+			method = upfMsgTypeMod
+		}
+		n0 := len(srv.cmds)
+		cause := st.env.b.SendMsgToUPF(method, all, PacketForwardingRules{pdrs: []pdr{np}})
+		vAssert("both-sides-ranges-refused-by-the-plug-in", cause != ie.CauseRequestAccepted)
+		vAssert("refused-call-writes-nothing", len(srv.cmds) == n0)
+		vCover("refused-modification")
+		return
+	}
+	var ies []*ie.IE
+	if when == 1 {
+		np := vPDRSpec{uplink: false, id: 3, prec: 50, ue: [4]byte{10, 250, 0, 5}, farID: 2, qerIDs: p[1].qerIDs, sdf: bad}
+		ies = append(ies, np.create())
+	} else {
+		up := p[1]
+		up.sdf = bad
+		ies = append(ies, up.update())
+	}
+	n0 := len(srv.cmds)
+	e.vSend(message.NewSessionModificationRequest(0, 0, fs.SEID, 3, 0, ies...))
+	m, ok := e.vLastReply().(*message.SessionModificationResponse)
+	vAssert("modification-answered", ok)
+	vAssert("modification-with-unrepresentable-range-refused", vCauseOf(m.Cause) != ie.CauseRequestAccepted)
+	vAssert("refused-modification-writes-nothing", len(srv.cmds) == n0)
+	vCheckBessImage(e.pc.store.GetAllSessions(), srv, "after-refused-modification")
+	vCover("refused-modification")
 }
